@@ -14,7 +14,7 @@ RULE = ("a case is a history of 2-40 steps {new KeyFile object, enter, exit (pro
         "from a file state in {absent, valid, empty, 1/16/31/33/64 bytes, parent directory missing, parent is a "
         "regular file}; checked against a 20-line model (file bytes; per object: depth, key); non-trivial = at least "
         "one enter and one encrypt/decrypt were judged; distinct = distinct (initial state, step list)")
-REQUIRED = ("key_file_named_relative_to_home", "key_file_replaced_with_preserved_timestamps", "exits_with_exception", "enter_ok_judged", "enter_rejected_judged", "key_measured_from_xor", "outside_context_rejected",
+REQUIRED = ("key_file_names_with_percent_sign", "key_file_named_through_symlink_and_dotdot", "key_file_named_relative_to_home", "key_file_replaced_with_preserved_timestamps", "exits_with_exception", "enter_ok_judged", "enter_rejected_judged", "key_measured_from_xor", "outside_context_rejected",
             "retention_scans", "created_once_checked", "nested_enter_judged", "reenter_after_rejection_judged")
 ASSUMPTIONS = ["the key in use is measured as xor_ciphertext XOR known_plaintext (48 bytes) and by decrypting AES "
                "output with the pure-Python oracle under the expected key",
@@ -101,7 +101,9 @@ def generate(rng, ctx):
             steps.append(["exit", o])
     return {"where": where, "init": init, "nobj": nobj, "steps": steps,
             # how the key file is named to the library: absolute, or relative to the home directory
-            "pathform": rng.choice(["abs", "abs", "home"]) if where == "ok" else "abs"}
+            "pathform": rng.choice(["abs", "abs", "home", "symlink-dotdot"]) if where == "ok" else "abs",
+            # file names with characters that mean something to string formatting, shells, URLs
+            "fname": rng.choice(["app.key", "app.key", "app%20key.bin", "100%.key", "k%s.key", "key {0}.bin", "cl\u00e9.key", "a b.key"])}
 
 
 def _scan(obj, key, depth=0, seen=None):
@@ -162,14 +164,27 @@ def run(case, ctx, res):
     cc = ctx.cc
     where = case["where"]
     given = None
+    fname = case.get("fname", "app.key")
+    if "%" in fname:
+        res.count("key_file_names_with_percent_sign")
     if where == "ok" and case.get("pathform") == "home":
         hd = os.path.join(os.path.expanduser("~"), "c07-" + os.path.basename(ctx.dir))
         os.makedirs(hd, exist_ok=True)
-        path = os.path.join(hd, "app.key")
-        given = "~/" + os.path.basename(hd) + "/app.key"
+        path = os.path.join(hd, fname)
+        given = "~/" + os.path.basename(hd) + "/" + fname
         res.count("key_file_named_relative_to_home")
+    elif where == "ok" and case.get("pathform") == "symlink-dotdot":
+        # <app>/current -> <store>/releases/v1 ; the key is named <app>/current/../../<fname>, which the operating system
+        # resolves to <store>/<fname> (not to <app>/../<fname>)
+        store = os.path.join(ctx.dir, "store")
+        os.makedirs(os.path.join(store, "releases", "v1"), exist_ok=True)
+        os.makedirs(os.path.join(ctx.dir, "app"), exist_ok=True)
+        os.symlink(os.path.join(store, "releases", "v1"), os.path.join(ctx.dir, "app", "current"))
+        path = os.path.join(store, fname)
+        given = os.path.join(ctx.dir, "app", "current", "..", "..", fname)
+        res.count("key_file_named_through_symlink_and_dotdot")
     elif where == "ok":
-        path = os.path.join(ctx.dir, "app.key")
+        path = os.path.join(ctx.dir, fname)
     elif where == "parent_missing":
         path = os.path.join(ctx.dir, "nodir", "app.key")
     else:
